@@ -58,6 +58,9 @@ pub struct Outcome {
     pub fringe_errors: Vec<String>,
     pub monitor: Vec<(String, String)>,
     pub primal_observed: Vec<(Option<isize>, Option<Vec<(usize, isize)>>)>,
+    /// sub-problems (depth, base state) that a cut-set handed back although they had already been popped
+    #[serde(default)]
+    pub repushed: Vec<(usize, usize)>,
     pub counters: Vec<(String, usize)>,
 }
 
@@ -140,7 +143,9 @@ pub fn full_solutions(inst: &Inst) -> Vec<(isize, Vec<(usize, isize)>)> {
     out
 }
 
-pub const D5_TAG: &str = " [D5-signature: a cut-set handed back a sub-problem that had already been popped (same state, depth and path)]";
+static CUR_INST: Mutex<Option<Arc<Inst>>> = Mutex::new(None);
+pub const D5_TAG: &str = " [D5-signature: a cut-set handed back a sub-problem that had already been popped (same state, depth and path); D5-precondition holds: its children are not all expanded at the same layer]";
+pub const D5_TAG_NO_PRE: &str = " [a cut-set handed back a sub-problem that had already been popped, but the precondition of known finding D5 does NOT hold for it]";
 type FatalHook = Box<dyn Fn(&Violation, &SchedReport) + Send + Sync>;
 static FATAL_HOOK: Mutex<Option<FatalHook>> = Mutex::new(None);
 /// The runner registers what must happen when the scheduler has to kill the process (deadlock, step bound).
@@ -153,7 +158,10 @@ fn fatal_handler(f: Fatal, rep: &SchedReport) {
         Fatal::UnexpectedWaker => (vec![], "harness-unexpected-waker"),
         Fatal::LostHandoff => (vec!["C04"], "lost-wakeup"),
     };
-    let v = Violation { props: props.iter().map(|s| s.to_string()).collect(), class: class.into(), msg: format!("{:?}: worker states {:?} after {} scheduling steps{}", f, rep.thread_states, rep.stats.steps, if REPUSH_OF_POPPED.load(Ordering::SeqCst) > 0 { D5_TAG } else { "" }) };
+    let v = Violation { props: props.iter().map(|s| s.to_string()).collect(), class: class.into(), msg: format!("{:?}: worker states {:?} after {} scheduling steps{}", f, rep.thread_states, rep.stats.steps, if REPUSH_OF_POPPED.load(Ordering::SeqCst) == 0 { "" } else {
+        // (state key = set << 8 | layer+1, depth): singleton sets only
+        let pre = CUR_INST.lock().unwrap().as_ref().map_or(false, |inst| REPUSHED_KEYS.lock().unwrap().iter().any(|(k, d)| { let set = (*k >> 8) as u32; set.count_ones() == 1 && *d <= inst.t.n && inst.d5_precondition(*d, set.trailing_zeros() as usize) }));
+        if pre { D5_TAG } else { D5_TAG_NO_PRE } }) };
     if let Some(h) = FATAL_HOOK.lock().unwrap().as_ref() { h(&v, rep); }
     use std::io::Write; let _ = std::io::stdout().flush();
 }
@@ -174,6 +182,8 @@ fn exec_with<D, C>(sc: &Scenario, inst: Arc<Inst>) -> Outcome
 where D: DecisionDiagram<State = TState> + Default, C: Cache<State = TState> + Default + Send + Sync {
     let rc = new_run_ctx();
     REPUSH_OF_POPPED.store(0, Ordering::SeqCst);
+    REPUSHED_KEYS.lock().unwrap().clear();
+    *CUR_INST.lock().unwrap() = Some(inst.clone());
     rc.cache_lossy_per_mille.store(sc.cache_lossy_per_mille, Ordering::Relaxed);
     rc.cache_seed.store(sc.seed as usize, Ordering::Relaxed);
     monitor::reset_counters();
@@ -216,12 +226,16 @@ where D: DecisionDiagram<State = TState> + Default, C: Cache<State = TState> + D
     }}}
     if sc.nodup {
         f_nodup = CheckedFringe::new(NoDupFringe::new(MaxUB::new(&rank)), true);
+        f_nodup.key_of = Some(tkey);
         run_solver!(&mut f_nodup);
         fstats = f_nodup.stats.clone(); ferrs = f_nodup.errors.clone();
+        out.repushed = f_nodup.repushed.iter().filter(|(s, _)| s.set.count_ones() == 1).map(|(s, d)| (*d, s.set.trailing_zeros() as usize)).collect();
     } else {
         f_simple = CheckedFringe::new(SimpleFringe::new(MaxUB::new(&rank)), false);
+        f_simple.key_of = Some(tkey);
         run_solver!(&mut f_simple);
         fstats = f_simple.stats.clone(); ferrs = f_simple.errors.clone();
+        out.repushed = f_simple.repushed.iter().filter(|(s, _)| s.set.count_ones() == 1).map(|(s, d)| (*d, s.set.trailing_zeros() as usize)).collect();
     }
     monitor::on_compile_end();
     out.fringe = fstats; out.fringe_errors = ferrs;
@@ -271,7 +285,8 @@ pub fn judge(sc: &Scenario, out: &Outcome) -> Vec<Violation> {
     let inst = Inst::new(sc.table.clone());
     let opt = inst.opt();
     let mut v: Vec<Violation> = vec![];
-    let d5 = if out.fringe.repush_of_popped > 0 { D5_TAG } else { "" };
+    let d5_pre = out.repushed.iter().any(|(d, a)| *d <= inst.t.n && *a < inst.t.s && inst.d5_precondition(*d, *a));
+    let d5 = if out.fringe.repush_of_popped == 0 { "" } else if d5_pre { D5_TAG } else { D5_TAG_NO_PRE };
     let mut add = |props: Vec<String>, class: &str, msg: String| v.push(Violation { props, class: class.into(), msg: if matches!(class, "no-termination" | "wrong-optimum" | "not-exact" | "exact-but-not-optimal" | "ub-after-complete") { format!("{msg}{d5}") } else { msg } });
     let s = |x: &str| x.to_string();
     let term_props = || { let mut p = vec![if sc.parallel { s("C04") } else { s("C01") }]; if sc.dd == Dd::Pooled && sc.table.irrelevant.iter().any(|r| r.iter().any(|x| *x)) { p.push(s("C15")); } p };
